@@ -214,6 +214,17 @@ func (cl *cluster) oracleElection(v controller.VerifView, s signal) {
 		cl.cnt["start_resignals"]++
 		return
 	}
+	// ground truth: a replica that registered, is reachable and was not legitimately dropped counts even if the
+	// controller has dropped its registration (e.g. after a single lost liveness probe)
+	for node, rev := range cl.regTruth {
+		st := ""
+		if node < len(cl.cfg.States) {
+			st = cl.cfg.States[node]
+		}
+		if _, still := v.Registered[ip(node)]; !still && rev > t.RevCount && st != "rebuilding" && !cl.down[node] && ip(node) != s.target {
+			cl.violate("election", "live-registration-dropped", fmt.Sprintf("start signalled to %s (revision %d) although node %d registered with revision %d, is reachable and was dropped from the controller's registrations; registered: %s", s.target, t.RevCount, node, rev, regStr(v)))
+		}
+	}
 	for a, r := range v.Registered {
 		n := nodeOf("tcp://" + a + ":9502")
 		if r.RevCount > t.RevCount && r.RepState != "rebuilding" && n >= 0 && !cl.down[n] {
@@ -229,6 +240,19 @@ func regStr(v controller.VerifView) string {
 	}
 	sort.Strings(l)
 	return strings.Join(l, " ")
+}
+
+// lastFailedSignal: the target of the most recent start signal if that signal failed (its registration was voided).
+func (cl *cluster) lastFailedSignal() string {
+	for i := len(cl.signals) - 2; i >= 0; i-- {
+		if cl.signals[i].action == "start" {
+			if !cl.signals[i].ok {
+				return cl.signals[i].target
+			}
+			return ""
+		}
+	}
+	return ""
 }
 
 func (cl *cluster) lastStartSignal() *signal {
@@ -452,6 +476,15 @@ func (cl *cluster) enabled() []string {
 				}
 				if cl.nodes[i].View().State == "closed" {
 					out = append(out, fmt.Sprintf("%s:%d", t, i))
+				}
+			}
+		case "RegL":
+			if len(v.Replicas) > 0 || (c.MaxRegs > 0 && cl.nRegs >= c.MaxRegs) || !v.StartSignalled || !faultsLeft(1) {
+				continue
+			}
+			for i := range cl.nodes {
+				if ip(i) != v.MaxRevReplica && cl.nodes[i].View().State == "closed" {
+					out = append(out, fmt.Sprintf("RegL:%d", i))
 				}
 			}
 		case "Down":
